@@ -443,6 +443,13 @@ func (w *Writer) WriteDataEnd(e *DataEnd) error {
 
 // WriteChunkWithIndexes writes a chunk record with the associated message indexes to the output.
 func (w *Writer) WriteChunkWithIndexes(c *Chunk, messageIndexes []*MessageIndex) error {
+	return w.writeChunkWithIndexes(c, messageIndexes, true)
+}
+
+// writeChunkWithIndexes writes a chunk and its message indexes. The chunk's time range is folded
+// into the statistics only if foldTimes is set: chunks flushed by the writer itself have had their
+// messages accounted for one by one in WriteMessage, and may hold no message at all (times 0/0).
+func (w *Writer) writeChunkWithIndexes(c *Chunk, messageIndexes []*MessageIndex, foldTimes bool) error {
 	if c.UncompressedSize == 0 {
 		return nil
 	}
@@ -512,6 +519,9 @@ func (w *Writer) WriteChunkWithIndexes(c *Chunk, messageIndexes []*MessageIndex)
 
 	w.Statistics.ChunkCount++
 
+	if !foldTimes {
+		return nil
+	}
 	if w.Statistics.MessageStartTime == 0 || c.MessageStartTime < w.Statistics.MessageStartTime {
 		w.Statistics.MessageStartTime = c.MessageStartTime
 	}
@@ -559,7 +569,7 @@ func (w *Writer) flushActiveChunk() error {
 		}
 	}
 
-	err = w.WriteChunkWithIndexes(&chunk, messageIndexes)
+	err = w.writeChunkWithIndexes(&chunk, messageIndexes, false)
 	// chunk.Records aliases w.compressed: only hand the buffer back to the
 	// compressor once the chunk has been written out (successfully or not),
 	// since a compressor may write to its destination as soon as it is reset.
